@@ -17,11 +17,11 @@ func init() { Registry["C10"] = C10 }
 func c10Leaves() []val.V {
 	return []val.V{
 		val.S(""), val.S("a"),
-		val.N("0"), val.N("-0"), val.N("1.50"), val.N("1e2"), val.N("0.10"),
+		val.N("0"), val.N("-0"), val.N("1.50"), val.N("1e2"), val.N("0.10"), val.N("12345678901234567890123456789012345678"),
 		val.V{T: "B", B: []byte{}}, val.B(1),
 		val.Bool(true), val.Bool(false),
 		val.Null(),
-		val.SS("x"), val.SS("x", "y"), val.NS("1"), val.NS("1", "2.0"), val.BS([]byte{1}), val.BS([]byte{1}, []byte{}),
+		val.SS("x"), val.SS("x", "y"), val.NS("1"), val.NS("1", "2.0"), val.NS("12345678901234567890123456789012345678", "12345678901234567890123456789012345679"), val.BS([]byte{1}), val.BS([]byte{1}, []byte{}),
 	}
 }
 
